@@ -164,7 +164,8 @@ func RunDaemon() {
 			ui.Info("Received SIGTERM signal, exiting...")
 			return nil
 		}, func(err error) {
-			defer close(sig)
+			// note: sig must stay open (and registered), a second SIGTERM/SIGINT that
+			// arrives while the fans are being restored would otherwise panic the process
 			cancel()
 		})
 	}
